@@ -87,12 +87,14 @@ def main():
     os.makedirs(out_dir, exist_ok=True)
     res = {'scope': scope, 'start_year': start_year, 'until_year': until_year}
     t0 = time.time()
-    if 'warm' in flags:
-        # the same process has already compiled something else (the other scope): nothing may carry over from it
-        ex0 = Extractor(input_dir)
+    warm_dir = next((f.split(':', 1)[1] for f in flags if f.startswith('warmdir:')), None)
+    if 'warm' in flags or warm_dir:
+        # the same process has already compiled something else (the other scope, or another source in the same scope): nothing
+        # may carry over from it
+        ex0 = Extractor(warm_dir or input_dir)
         ex0.parse()
         r0, z0, l0 = ex0.get_data()
-        s0 = 'basic' if scope == 'extended' else 'extended'
+        s0 = scope if warm_dir else ('basic' if scope == 'extended' else 'extended')
         g0 = 900 if s0 == 'basic' else 60
         t0_ = Transformer(z0, r0, l0, s0, start_year, until_year, 60, g0, False)
         t0_.transform()
@@ -101,7 +103,8 @@ def main():
                            offset_granularity=g0, strict=False, zones_map=d0[0], links_map=d0[2], rules_map=d0[1], removed_zones=d0[3], removed_links=d0[5],
                            removed_policies=d0[4], notable_zones=d0[6], notable_links=d0[8], notable_policies=d0[7], format_strings=d0[9], zone_strings=d0[10])
         tz0 = c0.get_data()
-        InlineGenerator(tz0['zones_map'], tz0['rules_map']).generate_maps()
+        zi0, zp0 = InlineGenerator(tz0['zones_map'], tz0['rules_map']).generate_maps()
+        BufSizeEstimator(zi0, zp0, start_year, until_year).estimate()      # (also evaluates the first database with ZoneSpecifier)
     extractor = Extractor(input_dir)
     extractor.parse()
     rules_map, zones_map, links_map = extractor.get_data()
@@ -140,6 +143,8 @@ def main():
     res['removed_links'] = {k: sorted(v) for k, v in removed_links.items()}
     res['notable_zones'] = {k: sorted(v) for k, v in notable_zones.items()}
     res['notable_policies'] = {k: sorted(v) for k, v in notable_policies.items()}
+    res['zone_strings'] = sorted(zone_strings['ordered_map'].keys())     # the zone-name list handed to the generators (zone_strings.cpp, tzdb.json)
+    res['format_strings'] = sorted(format_strings['ordered_map'].keys())
     res['emitted_formats'] = {k: sorted({e['format'] for e in v}) for k, v in zones_map.items()}
     res['emitted_zone_policies'] = {k: sorted({e['rules'] for e in v}) for k, v in zones_map.items()}
     collector = TzDbCollector(tz_version='verif', tz_files=Extractor.ZONE_FILES, scope=scope, start_year=start_year, until_year=until_year,
